@@ -327,6 +327,33 @@ where
                                 viol("translate-concrete-ext-vs-parse", format!("type / extra data of the translated object differ from the parsed one: {:?} vs {:?}", m2.ext, parsed.ext));
                             }
                         }
+                        // another key type with the same serializations (definite descriptor keys over the same
+                        // raw keys): same script, same figures - what a key costs is its encoding, not its Rust type
+                        {
+                            struct ToDefinite(KeyForm);
+                            impl Translator<String> for ToDefinite {
+                                type TargetPk = miniscript::DefiniteDescriptorKey;
+                                type Error = String;
+                                fn pk(&mut self, pk: &String) -> Result<Self::TargetPk, String> { Ok(crate::keys::DefEnv { form: self.0, with_origin: false }.pk(pk)) }
+                                fn sha256(&mut self, h: &String) -> Result<sha256::Hash, String> { Ok(bitcoin::hashes::Hash::from_slice(&hash_bytes('s', h)).unwrap()) }
+                                fn hash256(&mut self, h: &String) -> Result<miniscript::hash256::Hash, String> { Ok(bitcoin::hashes::Hash::from_slice(&hash_bytes('d', h)).unwrap()) }
+                                fn ripemd160(&mut self, h: &String) -> Result<ripemd160::Hash, String> { Ok(bitcoin::hashes::Hash::from_slice(&hash_bytes('r', h)).unwrap()) }
+                                fn hash160(&mut self, h: &String) -> Result<hash160::Hash, String> { Ok(bitcoin::hashes::Hash::from_slice(&hash_bytes('h', h)).unwrap()) }
+                            }
+                            match guard(|| ms.translate_pk(&mut ToDefinite(form))) {
+                                Ok(Ok(m3)) => {
+                                    bump(&mut cen, "definite_key_translations");
+                                    if m3.encode().as_bytes() != &script_ref[..] {
+                                        viol("translate-definite-script", "script over definite descriptor keys differs from the reference encoding".into());
+                                    }
+                                    if m3.ext != m2.ext || m3.ty != m2.ty {
+                                        viol("translate-definite-ext", format!("static figures over definite descriptor keys differ from those over the same raw keys: {:?} vs {:?}", m3.ext, m2.ext));
+                                    }
+                                }
+                                Ok(Err(e)) => viol("translate-definite-fails", format!("translation to definite descriptor keys failed although raw keys of the same form are accepted: {:?}", e)),
+                                Err(e) => viol("translate-panic", e),
+                            }
+                        }
                         // the translated object carries exactly the figures of the same term built directly over the target keys
                         if let Ok(direct) = build::<bitcoin::PublicKey, Ctx>(t, &PkEnv { form }) {
                             if direct.ext != m2.ext || direct.ty != m2.ty {
@@ -601,8 +628,74 @@ fn map_p(p: &P, f: &dyn Fn(&str) -> String) -> P {
     }
 }
 
+/// substitute_raw_pkh over concrete keys: a script decoded from bytes (key hashes only) with every
+/// key substituted back is the object built directly over those keys - same structure, same type,
+/// same static figures. (The PSBT finalizer builds its miniscripts this way.)
+fn substitute_concrete<Ctx: Cx>(rep: &Report, ctx: &'static str, n: usize, forms: &[KeyForm]) -> Census
+where
+    Ctx: miniscript::ScriptContext<Key = bitcoin::PublicKey>,
+{
+    use crate::keys::PkEnv;
+    use miniscript::ForEachKey;
+    let mut cen = Census::new();
+    let te = explore::<Ctx>(n, Alphabet::Small, false);
+    for m in te.all() {
+        let t = walk(m).relabel_distinct();
+        if !t.nodes().iter().any(|x| matches!(x, T::PkH(_))) {
+            continue;
+        }
+        for &form in forms {
+            let a = match build::<bitcoin::PublicKey, Ctx>(&t, &PkEnv { form }) {
+                Ok(a) => a,
+                Err(_) => continue,
+            };
+            let raw = match Miniscript::<bitcoin::PublicKey, Ctx>::decode_consensus(&a.encode()) {
+                Ok(r) => r,
+                Err(_) => continue,
+            };
+            let mut map = std::collections::BTreeMap::new();
+            a.for_each_key(|k| {
+                map.insert(k.to_pubkeyhash(miniscript::SigType::Ecdsa), *k);
+                true
+            });
+            let back = raw.substitute_raw_pkh(&map);
+            bump(&mut cen, "substitute_concrete");
+            let mut bad = vec![];
+            if walk(&back) != walk(&a) {
+                // sortedmulti decodes as multi: not this check's business
+                bump(&mut cen, "substitute_concrete_other_structure");
+                continue;
+            }
+            if back.ty != a.ty {
+                bad.push(format!("type {:?} vs {:?}", back.ty, a.ty));
+            }
+            if back.ext != a.ext {
+                bad.push(format!("static figures differ: max_satisfaction_size {:?} vs {:?}", back.max_satisfaction_size().ok(), a.max_satisfaction_size().ok()));
+            }
+            if !bad.is_empty() {
+                rep.violation(Violation {
+                    key: format!("C20|substitute-concrete|{}|{:?}|{}", ctx, form, t.sexpr()),
+                    class: format!("substitute_raw_pkh-stale-figures-{}", ctx),
+                    what: format!("decode + substitute_raw_pkh of {} differs from the directly built object: {}", a, bad.join("; ")),
+                    case: json!({"ctx": ctx, "key_form": format!("{:?}", form), "miniscript": a.to_string(), "script": hex(a.encode().as_bytes())}),
+                });
+            }
+        }
+    }
+    cen
+}
+
 pub fn run(tier: Tier) -> i32 {
     let rep = Report::new("C20", tier);
+    {
+        let n = tier.pick(4, 5);
+        let c = substitute_concrete::<Segwitv0>(&rep, "segwitv0", n, &[KeyForm::Compressed]);
+        rep.merge_counts(&c);
+        let c = substitute_concrete::<Legacy>(&rep, "legacy", n, &[KeyForm::Compressed, KeyForm::Uncompressed, KeyForm::Mixed]);
+        rep.merge_counts(&c);
+        let c = substitute_concrete::<BareCtx>(&rep, "bare", n, &[KeyForm::Compressed, KeyForm::Uncompressed]);
+        rep.merge_counts(&c);
+    }
     let n = tier.pick(6, 7);
     rep.extra("bounds", json!({"nodes": n}));
     let mut states = 0;
